@@ -29,6 +29,8 @@ type Profile struct {
 	Aliases float64 // probability of giving an option aliases
 	Short   float64 // probability of single-dash spelling
 	Unknown float64 // extra unknown options
+	Sugg    float64 // suggested values / static argument suggestions
+	Comp    bool    // completion cases (argv = COMP_LINE words)
 }
 
 var AllKinds = []string{"bool", "incr", "string", "int", "float", "sopt", "iopt", "fopt", "sslice", "islice", "fslice", "smap"}
@@ -81,6 +83,17 @@ func GenDef(r *rand.Rand, p *Profile) Cfg {
 			if chance(r, 0.4) {
 				sn := pick(r, cmdPool)
 				c.Nodes = append(c.Nodes, NodeCfg{Name: T(sn), Parent: len(c.Nodes), Um: n.Um, Ro: n.Ro, Fn: chance(r, 0.8)})
+			}
+		}
+	}
+	if p.Sugg > 0 {
+		for i := range c.Nodes {
+			if chance(r, p.Sugg) {
+				c.Nodes[i].Sugg = Ts("sarg", "run-all", "list")
+			}
+			if chance(r, p.Sugg/3) {
+				c.Nodes[i].DynFn = true
+				c.Nodes[i].DynOut = Ts("dyn", "a b")
 			}
 		}
 	}
@@ -141,6 +154,12 @@ func GenDef(r *rand.Rand, p *Profile) Cfg {
 		}
 		if chance(r, p.Valid) && (kind == "string" || kind == "sslice" || kind == "sopt") {
 			o.Valid = Ts("val", "foo", "a")
+		}
+		if chance(r, p.Sugg) && kind != "bool" && kind != "incr" {
+			o.Sugg = Ts("dev", "devel", "prod")
+		}
+		if chance(r, p.Sugg/3) {
+			o.ArgName = T("thing")
 		}
 		c.Opts = append(c.Opts, o)
 	}
@@ -316,4 +335,44 @@ func GenArgv(r *rand.Rand, p *Profile, c *Cfg) []string {
 // stray bytes; such inputs are kept out of the specification-validated drivers (see DESIGN.md).
 func validForSingleDash(v string) bool {
 	return strings.ToValidUTF8(v, "") == v
+}
+
+// GenCompLine - COMP_LINE words: program name, earlier words, and a last word that is usually a prefix
+// of something that could stand there.
+func GenCompLine(r *rand.Rand, p *Profile, c *Cfg) []string {
+	words := []string{FromAtoms(c.Prog)}
+	for _, w := range GenArgv(r, p, c) {
+		if strings.ContainsAny(w, " \t\n\f\r") {
+			continue // the line is split at white space
+		}
+		words = append(words, w)
+	}
+	var last string
+	switch r.Intn(8) {
+	case 0:
+		last = ""
+	case 1:
+		last = pick(r, []string{"-", "--"})
+	case 2, 3:
+		k := pick(r, c.allKeys())
+		rs := []rune(k)
+		last = "--" + string(rs[:r.Intn(len(rs)+1)])
+		if chance(r, 0.3) {
+			last = "--" + k + "=" + pick(r, []string{"", "d", "de", "p", "v", "x"})
+		}
+	case 4, 5:
+		cands := []string{"help", "h", "sarg", "run", "l", "dy"}
+		for _, nd := range c.Nodes[1:] {
+			cands = append(cands, FromAtoms(nd.Name))
+		}
+		k := pick(r, cands)
+		rs := []rune(k)
+		last = string(rs[:r.Intn(len(rs)+1)])
+	case 6:
+		k := pick(r, c.allKeys())
+		last = "-" + string([]rune(k)[:1])
+	default:
+		last = pick(r, wordPool)
+	}
+	return append(words, last)
 }
